@@ -66,11 +66,12 @@ impl BinaryOp {
             BinaryOp::Mul => lhs * rhs,
             BinaryOp::Div => match rhs {
                 0 => 0,
-                _ => lhs / rhs,
+                // wrapping: i64::MIN / -1 overflows
+                _ => lhs.wrapping_div(rhs),
             },
             BinaryOp::Mod => match rhs {
                 0 => 0,
-                _ => lhs % rhs,
+                _ => lhs.wrapping_rem(rhs),
             },
             BinaryOp::Shl => lhs << rhs,
             BinaryOp::Shr => lhs >> rhs,
